@@ -41,7 +41,7 @@ def contains(outer, inner):
 
 
 def is_emptiness_test(test):
-    """`not any(...)`, `len(x) == 0`, `not x`, `x.size == 0`"""
+    """`not any(...)`, `len(x) == 0`, `n == 0`, `not x`, `x.size == 0`"""
     t = test
     if isinstance(t, ast.UnaryOp) and isinstance(t.op, ast.Not):
         o = t.operand
@@ -60,6 +60,8 @@ def is_emptiness_test(test):
                 and l.func.id == 'len':
             return True
         if isinstance(l, ast.Attribute) and l.attr in ('size',):
+            return True
+        if isinstance(l, ast.Name):
             return True
     return False
 
